@@ -189,6 +189,31 @@ class C08Machine(RecordingMixin, RuleBasedStateMachine):
             if c._get_circuit_spec() or c.heralds["input"]:
                 self.nontrivial = True
 
+    def do_scribble(self, i):
+        """The caller overwrites, in place, every value an accessor of the circuit (and of the pooled states) handed
+        out; none of them may be the object's own storage."""
+        k = self.pick(i)
+        c = self.circs[k]
+
+        def scribble():
+            h = c.heralds
+            for side in ("input", "output"):
+                h[side][len(h[side]) + 97] = 3
+                for m in list(h[side])[:1]:
+                    h[side][m] += 1
+            for arr in (c.U_full, c.U):
+                try:
+                    arr[...] = 0
+                except (ValueError, TypeError):
+                    pass
+            for s in self.states:
+                v = s.s
+                if v:
+                    v[0] += 1
+                v.append(9)
+        self.guarded(f"overwrite what the accessors of circuit#{k} / the states returned", scribble)
+        self.info_labels.add("accessor-results-overwritten")
+
     def do_rewrite(self, i, which):
         k = self.pick(i)
         c = self.circs[k]
@@ -344,6 +369,10 @@ class C08Machine(RecordingMixin, RuleBasedStateMachine):
     @rule(i=IDX, n=st.integers(0, 1), a=st.integers(0, 5), b=st.integers(0, 5))
     def r_herald(self, i, n, a, b):
         self.step("herald", i=i, n=n, a=a, b=b)
+
+    @rule(i=IDX)
+    def r_scribble(self, i):
+        self.step("scribble", i=i)
 
     @rule(i=IDX, which=st.sampled_from(["unpack", "compress", "nonadj"]))
     def r_rewrite(self, i, which):
